@@ -55,6 +55,7 @@ func main() {
 	h.svCorrespondence()
 	h.runnerAll()
 	h.blockTxAll()
+	h.fullAll()
 	lib.Finish(f, res)
 }
 
@@ -80,6 +81,13 @@ func (h *harness) replay(path string) {
 			return
 		}
 		h.blockTxImage(rp.Spec, "replay")
+		return
+	}
+	var fh fullHistory
+	if err := json.Unmarshal(doc.Replay, &fh); err == nil && len(fh.Spec.Chain.Layout) > 0 {
+		// note: which store commit is the k-th depends on goroutine scheduling inside the
+		// migrations' pipelines, so this replays the same plan, not necessarily the same image
+		h.fullHistoryCase(fh, "replay")
 		return
 	}
 	var hist runnerHistory
